@@ -85,13 +85,25 @@ class Env:
     def __init__(self):
         self.val = {}
         self.int_ty = {}      # integer type of a term, read off the comparisons of the trees being compared (shared, not copied)
+        self.classified = set()   # f64 terms x for which classify(x) occurs in the trees being compared (shared)
     def copy(self):
-        e = Env(); e.val = dict(self.val); e.int_ty = self.int_ty; return e
+        e = Env(); e.val = dict(self.val); e.int_ty = self.int_ty; e.classified = self.classified; return e
 
-def collect_int_types(tree, acc):
+CLASSIFY = "core::f64::<impl f64>::classify"
+IS_INFINITE = "core::f64::<impl f64>::is_infinite"
+IS_NORMAL = "core::f64::<impl f64>::is_normal"
+
+def category(env, x):
+    """FpCategory discriminant of x (Nan 0, Infinite 1, Zero 2, Subnormal 3, Normal 4) as the value of the switch variable
+    discr(classify(x)): the predicates is_nan / is_infinite / is_normal / is_finite and comparisons with zero are functions of it"""
+    return eval_switch(mk("discr", mk("call", CLASSIFY, x)), env, (0, 1, 2, 3, 4))
+
+def collect_int_types(tree, acc, cls=None):
     """term -> integer type, from the integer comparisons and arithmetic in the conditions of a tree"""
     def visit(c):
         for n in all_nodes(c):
+            if tag(n) == "call" and n[1] == CLASSIFY and len(n) == 3 and cls is not None:
+                cls.add(n[2])
             if tag(n) == "cmp" and n[2] in vg.INT_BITS:
                 acc.setdefault(n[3], n[2]); acc.setdefault(n[4], n[2])
             elif tag(n) == "i" and n[2] in vg.INT_BITS:
@@ -100,15 +112,15 @@ def collect_int_types(tree, acc):
                 acc.setdefault(n, n[3])
     k = tree[0]
     if k == "if":
-        visit(tree[1]); collect_int_types(tree[2], acc); collect_int_types(tree[3], acc)
+        visit(tree[1]); collect_int_types(tree[2], acc, cls); collect_int_types(tree[3], acc, cls)
     elif k == "switch":
         visit(tree[1])
         for _, t in tree[2]:
-            collect_int_types(t, acc)
-        collect_int_types(tree[3], acc)
+            collect_int_types(t, acc, cls)
+        collect_int_types(tree[3], acc, cls)
     elif k == "rel":
         for t in tree[4].values():
-            collect_int_types(t, acc)
+            collect_int_types(t, acc, cls)
 
 def rel_var(a, b, kind):
     """canonical variable and whether operands were swapped"""
@@ -121,7 +133,9 @@ def get_rel(env, a, b, kind, domain):
         return const_rel(a, b, kind)
     if kind == "PartialOrd<TwoFloat,TwoFloat>":
         # two valid values compare by their words, lexicographically (that is what partial_cmp does for them: C06 / R12b)
-        va = env.val.get(("bool", mk("call", IS_VALID, a))); vb = env.val.get(("bool", mk("call", IS_VALID, b)))
+        # (validity is asked for first, so that the answer does not depend on the order in which the conditions are met)
+        va = eval_bool(mk("call", IS_VALID, a), env) if tag(a) != "agg" else env.val.get(("bool", mk("call", IS_VALID, a)))
+        vb = eval_bool(mk("call", IS_VALID, b), env) if tag(b) != "agg" else env.val.get(("bool", mk("call", IS_VALID, b)))
         if va is True and vb is True:
             rh = get_rel(env, mk("field", a, 0), mk("field", b, 0), "f64", REL4)
             if rh != "eq":
@@ -145,6 +159,35 @@ def get_rel(env, a, b, kind, domain):
         if r == "eq":
             r = get_rel(env, mk("field", x, 1), mk("const", "f64", 0), "f64", REL4)
         return r if kind == "PartialOrd<TwoFloat,f64>" else FLIP[r]
+    if kind == "f64":
+        # |x| against a non-negative number c: decided by x against c and -c
+        for x_, k_, flip_ in ((a, b, False), (b, a, True)):
+            if tag(x_) == "call" and x_[1] == "libm::fabs" and len(x_) == 3 and tag(k_) == "const" and tag(x_[2]) != "const":
+                kv = f64v(k_)
+                if kv == kv and kv > 0 and kv != float("inf"):
+                    up = get_rel(env, x_[2], k_, "f64", REL4)
+                    if up == "un":
+                        r_ = "un"
+                    elif up == "gt":
+                        r_ = "gt"
+                    elif up == "eq":
+                        r_ = "eq"
+                    else:
+                        lo_ = get_rel(env, x_[2], mk("const", "f64", k_[2] ^ (1 << 63)), "f64", REL4)
+                        r_ = {"lt": "gt", "eq": "eq", "gt": "lt", "un": "un"}[lo_]
+                    return FLIP[r_] if flip_ else r_
+    if kind == "f64" and env.classified:
+        for x_, k_, flip_ in ((a, b, False), (b, a, True)):
+            if x_ in env.classified and tag(k_) == "const":
+                kv = f64v(k_)
+                cat = category(env, x_)
+                if cat == 0 or kv != kv:
+                    return "un"
+                if cat == 2:
+                    r_ = "lt" if 0.0 < kv else ("gt" if 0.0 > kv else "eq")
+                    return FLIP[r_] if flip_ else r_
+                # a non-zero number: ordered, and not equal to zero (an infinity: not equal to any finite constant)
+                domain = tuple(r for r in domain if r != "un" and not (r == "eq" and (kv == 0 or (cat == 1 and abs(kv) != float("inf")))))
     v, sw = rel_var(a, b, kind)
     if a is b and kind in vg.INT_BITS:
         return "eq"
@@ -179,6 +222,20 @@ def _cval(c, kind):
     if kind in vg.INT_BITS:
         return vg.to_signed(kind, c[2])
     return c[2]
+
+NAN_TRANSPARENT = ("libm::fabs", "libm::round", "libm::trunc", "libm::floor", "libm::ceil")
+def nan_base(w):
+    """x when w = f(x) for an f that is NaN exactly when x is (so an ordered f(x) means x is a number)"""
+    for _ in range(4):
+        if tag(w) == "call" and w[1] in NAN_TRANSPARENT and len(w) == 3:
+            w = w[2]
+        elif tag(w) == "field" and w[2] in (0, 1) and tag(w[1]) == "call" and w[1][1] == "libm::modf" and len(w[1]) == 3:
+            w = w[1][2]
+        elif tag(w) == "f" and w[1] == "neg":
+            w = w[2]
+        else:
+            break
+    return w
 
 def feasible_vs_const(env, x, c, kind, domain):
     """relations rel(x, c) consistent with what env already assumes about x versus other constants"""
@@ -231,6 +288,18 @@ def feasible_vs_const(env, x, c, kind, domain):
                 out.append(r)
         return tuple(out)
     isnan_known = env.val.get(("bool", mk("call", IS_NAN, x)))
+    if isnan_known is None and tag(x) == "field" and x[2] in (0, 1):
+        # a word of a TwoFloat that is ordered against another TwoFloat is not NaN (partial_cmp screens NaN words first: C06 / R12b)
+        for var, r in env.val.items():
+            if var[0] == "rel" and var[3] == "PartialOrd<TwoFloat,TwoFloat>" and r != "un" and (var[1] is x[1] or var[2] is x[1]):
+                isnan_known = False; break
+    if isnan_known is None:
+        # f(x) ordered against a number for a NaN-transparent f (|.|, the roundings, modf's parts, negation): x is a number
+        for var, r in env.val.items():
+            if var[0] == "rel" and var[3] == "f64" and r != "un":
+                for w in (var[1], var[2]):
+                    if w is not x and nan_base(w) is x:
+                        isnan_known = False
     if isnan_known is True:
         nan = True
     elif isnan_known is False and nan is None:
@@ -282,6 +351,9 @@ def eval_bool(c, env):
         dom = REL4 if ty in ("f64", "f32") else REL3
         r = get_rel(env, a, b, ty, dom)
         return r in OPS[op]
+    if t == "i" and c[2] == "bool" and c[1] in ("bitand", "bitor", "bitxor") and len(c) == 5:
+        x_ = eval_bool(c[3], env); y_ = eval_bool(c[4], env)
+        return (x_ and y_) if c[1] == "bitand" else ((x_ or y_) if c[1] == "bitor" else (x_ != y_))
     if t == "i" and c[1] == "sub_ovf" and c[2] in vg.INT_BITS and c[2].startswith("u") and len(c) == 5:
         # x - y wraps for unsigned operands exactly when x < y (`x.checked_sub(1)` is None iff x == 0)
         return get_rel(env, c[3], c[4], c[2], REL3) == "lt"
@@ -317,6 +389,19 @@ def eval_bool(c, env):
                 oc = ordering_const(y)
                 if oc is not None and tag(x) == "call" and len(x) == 4 and pcmp_kind(x[1]):
                     return get_rel(env, x[2], x[3], pcmp_kind(x[1]), REL4) == oc
+    if t == "call" and len(c) == 3 and c[2] in env.classified and c[1] in (IS_NAN, IS_INFINITE, IS_NORMAL, IS_FINITE):
+        cat = category(env, c[2])
+        return {IS_NAN: cat == 0, IS_INFINITE: cat == 1, IS_NORMAL: cat == 4, IS_FINITE: cat in (2, 3, 4)}[c[1]]
+    if t == "call" and len(c) == 3 and c[1] in (IS_INFINITE, IS_FINITE) and tag(c[2]) != "const":
+        # infinite: equal to one of the infinities; finite: strictly between them
+        pinf = mk("const", "f64", 0x7FF0000000000000); ninf = mk("const", "f64", 0xFFF0000000000000)
+        up = get_rel(env, c[2], pinf, "f64", REL4)
+        if up == "un":
+            return False
+        if up == "eq":
+            return c[1] == IS_INFINITE
+        dn = get_rel(env, c[2], ninf, "f64", REL4)
+        return (dn == "eq") if c[1] == IS_INFINITE else (dn == "gt")
     v = ("bool", c)
     if v not in env.val:
         if t == "call" and c[1] == IS_NAN and len(c) == 3:
@@ -501,7 +586,30 @@ def show_leaf(l):
 def default_leaf_eq(l1, l2):
     return l1 == l2
 
+def expand_copysign_leaves(tree):
+    """a leaf whose value contains copysign(c, x) for a constant c becomes a split on the sign bit of x with +-|c| in its place"""
+    from .terms import rebuild
+    def find(v):
+        for n in all_nodes(v):
+            if tag(n) == "call" and n[1] == "libm::copysign" and len(n) == 4 and tag(n[2]) == "const" and n[2][1] == "f64" and tag(n[3]) != "const":
+                return n
+        return None
+    def f(l):
+        if l[0] != "leaf":
+            return l
+        n = find((l[1],) + tuple(v for _, v in l[2]))
+        if n is None:
+            return l
+        mag = n[2][2] & ((1 << 63) - 1)
+        def sub(val):
+            return lambda a: mk("const", "f64", val) if mk(*a) is n else mk(*a)
+        pos = ("leaf", rebuild(l[1], sub(mag), {}), tuple((i, rebuild(v, sub(mag), {})) for i, v in l[2]))
+        neg = ("leaf", rebuild(l[1], sub(mag | (1 << 63)), {}), tuple((i, rebuild(v, sub(mag | (1 << 63)), {})) for i, v in l[2]))
+        return ("if", mk("call", "core::f64::<impl f64>::is_sign_positive", n[3]), f(pos), f(neg))
+    return map_leaves(tree, f)
+
 def equivalent(t1, t2, leaf_eq=default_leaf_eq, budget=200000, assume=None):
+    t1 = expand_copysign_leaves(t1); t2 = expand_copysign_leaves(t2)
     """None if the trees agree under every assignment (optionally restricted by `assume`, a
     predicate on Env that may raise Undetermined); else a Mismatch"""
     listed = switch_values(t1);
@@ -509,7 +617,7 @@ def equivalent(t1, t2, leaf_eq=default_leaf_eq, budget=200000, assume=None):
         listed.setdefault(k, set()).update(v)
     count = [0]
     root = Env()
-    collect_int_types(t1, root.int_ty); collect_int_types(t2, root.int_ty)
+    collect_int_types(t1, root.int_ty, root.classified); collect_int_types(t2, root.int_ty, root.classified)
     def walk(env):
         count[0] += 1
         if count[0] > budget:
